@@ -146,7 +146,7 @@ inline J uplink_event(Rng &r, const cfg::World &w, int at_us) {
 		case 10: { e.set("type", (int) MSG_BOOST_DIAGNOSTIC); J d = J::arr(); for (int q = 0, n = (int) r.range(1, 3); q < n; q++) { d.push((int) r.below(4)); d.push((int) r.byte()); } e.set("data", d); break; }
 		case 11: { static const int st[] = {0, 1, 2, 3, 4, 8, 9, 0x0D}; e.set("type", (int) MSG_CS_STATE); e.set("data", pc::jarr({st[r.below(8)]})); break; }
 		case 12: train_addr(l, h); e.set("type", (int) MSG_CS_DRIVE_ACK); e.set("data", pc::jarr({l, h, (int) r.below(4)})); break;
-		case 13: train_addr(l, h); e.set("type", (int) MSG_CS_DRIVE_MANUAL); e.set("data", pc::jarr({l, h, 3, (int) r.below(64), (int) r.byte(), (int) r.below(32), (int) r.byte(), (int) r.byte(), (int) r.byte()})); break;
+		case 13: train_addr(l, h); e.set("type", (int) MSG_CS_DRIVE_MANUAL); e.set("data", pc::jarr({l, h, 3, r.chance(150) ? 0 : (int) r.below(64), (int) r.byte(), (int) r.below(32), (int) r.byte(), (int) r.byte(), (int) r.byte()})); break;
 		case 14: {
 			int al = (int) r.byte(), ah = (int) r.below(8);
 			std::vector<const cfg::DccAcc *> ds; for (auto &x : b.points_dcc) ds.push_back(&x); for (auto &x : b.signals_dcc) ds.push_back(&x);
